@@ -215,7 +215,7 @@ def _decorator_names(node) -> List[str]:
 
 
 class Repo:
-    def __init__(self, root: Optional[str] = None):
+    def __init__(self, root: Optional[str] = None, normalize: bool = True):
         self.root = root or repo_root()
         self.pkgdir = os.path.join(self.root, PKG)
         if not os.path.isdir(self.pkgdir):
@@ -227,6 +227,11 @@ class Repo:
                 self._load(fn)
         for m in self.modules.values():
             self._resolve_bases(m)
+        self.normalized_helpers = []
+        self.normalize_stats = {}
+        if normalize and os.environ.get('VERIF_NO_NORMALIZE') != '1':
+            from .normalize import normalize_repo
+            self.normalize_stats = normalize_repo(self)
 
     # ---------------------------------------------------------------- loading
     def _load(self, fn: str):
@@ -376,6 +381,18 @@ class Repo:
         if cur is None:
             raise AnalysisError('function %s:%s not found' % (module, qualname))
         return cur
+
+    def is_helper(self, fi: FuncInfo) -> bool:
+        """Is this function a helper the analyses look into rather than a named anchor?  Private
+        functions the rules do not anchor on, and functions introduced after the rule instances
+        were confirmed (oracles/inventory.py)."""
+        from .normalize import NO_INLINE
+        from .oracles.inventory import FUNCTIONS
+        if fi.name.startswith('__') or fi.name in NO_INLINE or fi.parent is not None:
+            return False
+        if fi.kind not in ('function', 'method', 'staticmethod', 'classmethod'):
+            return False
+        return fi.name.startswith('_') or fi.key not in FUNCTIONS
 
     def module_const(self, module: str, name: str) -> Any:
         m = self.module(module)
